@@ -562,7 +562,7 @@ def fresh_suites(ctx, entries):
 
 def check_C01(ctx):
     return run_message_property(ctx, dict(
-        theorems=["C01_scalar_field", "C01_varint_readable", "C01_framing", "C01_marshal_is_reference_encoding", "C01_total"],
+        theorems=["C01_scalar_field", "C01_varint_readable", "C01_framing", "C01_marshal_is_reference_encoding", "C01_total", "C01_reference_reads_the_values"],
         suites=lambda c: [_msg_suite(c, 2000, 60000)] + fresh_suites(c, [("msg", ["msg", c.seed + 11, _n(c, 1200, 30000), ".proto:"])]),
         prop={"msg": msg_flag("c01")}, tie={"msg": tie_bytes}, spec={"msg": spec_msg},
         nontrivial=nontrivial_any, shrink_flag="c01=bad", rule=MSG_RULE + "; oracle: proto.Unmarshal (dynamicpb) of the Marshal output compared with the value"))
@@ -587,7 +587,7 @@ def check_C06(ctx):
 
 def check_C08(ctx):
     return run_message_property(ctx, dict(
-        theorems=["C08_optional_always", "C08_oneof_always", "C08_oneof_enum_always", "C08_always_emits", "C08_message_presence"],
+        theorems=["C08_optional_always", "C08_oneof_always", "C08_oneof_enum_always", "C08_always_emits", "C08_message_presence", "C08_presence_round_trip"],
         suites=lambda c: [_msg_suite(c, 1500, 60000)] + fresh_suites(c, [("msg", ["msg", c.seed + 14, _n(c, 1000, 20000), "presence.proto:"]), ("msg", ["msg", c.seed + 15, _n(c, 1200, 30000), ".proto:"])]),
         prop={"msg": lambda r: r["impl"] != "PANIC" and r["flags"].get("c08o") == "ok" and r["flags"].get("c08r") == "ok"},
         tie={"msg": tie_bytes}, spec={"msg": spec_msg}, nontrivial=nontrivial_any, shrink_flag="c08",
@@ -644,7 +644,7 @@ def check_C09(ctx):
 
 def check_C11(ctx):
     return run_message_property(ctx, dict(
-        theorems=["C11_entry"],
+        theorems=["C11_entry", "C11_map_round_trip"],
         suites=lambda c: [("msg", ["msg", c.seed, _n(c, 300, 30000), "Map"]), ("decv", ["decv", c.seed, _n(c, 300, 30000), "Map"]), ("hist", ["hist", c.seed + 1, _n(c, 150, 5000), "Map"])] +
                          fresh_suites(c, [("msg", ["msg", c.seed + 2, _n(c, 250, 20000), "allmaps"]), ("decv", ["decv", c.seed + 2, _n(c, 250, 20000), "allmaps"]),
                                           ("hist", ["hist", c.seed + 2, _n(c, 100, 5000), "allmaps"])]),
